@@ -295,7 +295,14 @@ def _edits_tokens(s, out):
                 add = " 'q'" if "b" in pre else " b'q'"
                 out.append(Edit("bytes-text-mixed", {"Other"}, ls, b + len(add) + 1, s.sub(b, b, add), "parse"))
             if "b" in pre and not triple:
-                out.append(Edit("non-ascii-bytes", {"Other"}, a, b + 3, s.sub(b - 1, b - 1, "é"), "parse"))
+                # a non-ASCII character at every position class of the body: last, first, after a backslash,
+                # after a recognised escape, after a hex / octal escape
+                first = a + len(pre) + 1
+                raw = "r" in pre
+                for at, ins in [(b - 1, "é"), (first, "é"), (b - 1, "\\é"), (first, "\\é"), (first, "\\n\\é"),
+                                (first, "\\x41é"), (first, "\\x41\\é"), (first, "\\7é"), (first, "\\0\\😀")]:
+                    out.append(Edit("non-ascii-bytes", {"Other"} if not raw or "x" not in ins else {"Other"}, a,
+                                    b + len(ins.encode()) + 1, s.sub(at, at, ins), "parse"))
             if "f" in pre and not triple:
                 body_lo = a + len(pre) + 1
                 body = s.b[body_lo:b - 1].decode()
